@@ -1928,12 +1928,13 @@ def break_partition(rep: Report, ctx: Ctx, rule: str) -> None:
            "the loop is cut out) nor another break event reaches are "
            "re-attached behind the loop node like end events", kind="call",
            name="update_graph_for_loop_end_events",
-           args=("ISOLATED", "P:loop.loop_events", "P:loop_event", "P:graph"))
+           args=("ISOLATED", "P:loop.loop_events", "P:loop_event", "P:graph"),
+           final_args=True)
     expect(rep, rule, fi, effs, "all other break events keep their place "
            "and get the loop node as one more predecessor", kind="call",
            name="update_graph_for_break_events_with_path_to_root_event",
            args=("(P:loop.break_events Sub ISOLATED)", "P:loop.loop_events",
-                 "P:loop_event", "P:graph"))
+                 "P:loop_event", "P:graph"), final_args=True)
 
 
 def r722b(rep: Report, ctx: Ctx) -> None:
